@@ -10,7 +10,7 @@ from tie.framework import g_bool, g_list, g_pair, g_str, g_Z, run_impl_parallel
 
 PROP = "C05"
 IMPORTS = ("From JV Require Import Lib.Base Lib.Regex Model.TyVal Model.Scalar Model.Ty Model.TyLoader Model.C05History "
-           "Model.C05Channels Spec.C05Spec Corr.C05Judge.")
+           "Model.C05Channels Model.C05Plain Spec.C05Spec Corr.C05Judge.")
 MODES = ["yaml", "json", "jsonnet", "omegaconf"]
 EXHAUSTIVE = {"quick": False, "thorough": False}
 RULE = ("one case = one logical setting for one key: a type hint from the grammar str/int/float/bool/None/Any/Literal/Enum/"
@@ -40,6 +40,15 @@ RULE = ("one case = one logical setting for one key: a type hint from the gramma
         "os.environ, os.environ + parse_args(env=True), parse_string, parse_path, --cfg FILE/STRING, PREFIX_CFG, "
         "default_config_files; every leaf key judged as an ordinary setting (Group). Float settings are rendered by repr or "
         "(20%) as another JSON number literal (1e5, 2E3, -3e2, 1.5E+3, 12e-1). "
+        "Directed: the empty string / a blank at str, Optional[str], List[str] under every key shape; leaves named like "
+        "Namespace attributes (values, keys, pop, items, get, update) below 0-2 branches with float<-int, Set, Tuple, Enum, "
+        "Tuple[float, ...], List[float] settings. nargs/choices family (92 quick / 502 thorough): one option declared with a plain "
+        "callable type (pos = int(x) > 0, up = str.upper), no type, or a type hint (int, float, str, Optional[int], List[int]) x "
+        "nargs in {None, ?, *, +, 1, 2, 3} x choices (45%); the values follow the option string as separate tokens (and --k=V "
+        "for one value), the environment variable holds the JSON list or the bare single value, parse_object / the documents "
+        "the list; 15% value counts the nargs pattern refuses, values outside the choices, texts the callable refuses; every "
+        "channel incl. both environment forms, PREFIX_CFG and default_config_files, yaml + one other mode. History family: the "
+        "dataclass group is also given as one command-line value (--opt=JSON). "
         "distinct = distinct (type, value, key, prefix, spelling, modes) resp. (settings, earlier call); non-trivial = >= 8 "
         "channel runs")
 TRUSTED = [
@@ -55,7 +64,14 @@ TRUSTED = [
     "argparse's splitting of argv into option and value",
 ]
 ASSUMPTIONS = [
-    "keys are declared with add_argument('--a.b.c', type=T) and default None; no subcommands, links, class types or paths",
+    "keys are declared with add_argument('--a.b.c', type=T) and default None (nargs / choices / plain callable types: the "
+    "nargs-choices family); no links, class types or paths outside the history family",
+    "nargs-choices family: the callables are pos and up of tie/impl/c05_channels.py, modelled by Model/C05Plain.v elem on the "
+    "generated texts ([+-]digits and ASCII words: Python's int() also takes blanks, underscores and non-ASCII digits, not "
+    "generated); choices hold values of the element type only (Python's == across int/float/bool is not modelled); the "
+    "logical value of a list-valued option is always a list (a bare scalar, a str or a dict given to the config channels "
+    "for nargs * + N is not generated; '?' without a value stores const and is not a setting); several tokens after the "
+    "option string never start with '-'",
     "floats within binary64 range with <= 15 significant digits (decimal model of Model/TyVal.v); no NaN/inf settings; integers beyond 2^53 only for types without a float position (float(int) rounds there)",
     "the model is compared with the observations of parser_mode yaml and omegaconf (the latter through what the OmegaConf-based "
     "loader answered, errors classified by the implementation's own list of loader exceptions); json / jsonnet observations "
@@ -74,7 +90,7 @@ ASSUMPTIONS = [
     "seen, not triaged); nested keys below class-typed options (init_args) are not generated",
     "the text '--' is not used as a value (argparse removes it) and bare NoneType is not used as a type hint",
 ]
-FINDING_CLASSES = {1: "none-unchecked", 3: "literal-eq-channels", 4: "jsonnet-numbers"}   # 2 (clash-key-unadapted) and 7 (nested-item-no-string-fallback) repaired
+FINDING_CLASSES = {1: "none-unchecked", 3: "literal-eq-channels", 4: "jsonnet-numbers", 8: "nargs-count-unchecked", 9: "typed-choices-raw-argv"}   # 2 (clash-key-unadapted) and 7 (nested-item-no-string-fallback) repaired
 # When fixes/C05-clash-key-unadapted.patch is applied in /repo:  JUDGE = "judge_fixed"  and drop class 2 above.
 JUDGE = "judge_fixed"   # /repo 0aaec05 (clash-key-unadapted repaired)
 
@@ -365,6 +381,10 @@ def strings_in(v):
 
 FILE_NAMES = {"notes.txt", "./data.yaml", "data.yaml"}
 CLASH = {"items", "values", "keys", "get", "pop", "update", "clone"}
+CLASH_KEYS = [["g", "values"], ["plot", "keys"], ["x", "pop"], ["g", "items"], ["a", "b", "get"], ["grp_x", "update"], ["values"]]
+CLASH_SETTINGS = [(["float"], {"i": "1"}), (["set", ["int"]], {"l": [{"i": "3"}, {"i": "1"}]}),
+                  (["tuple", [["int"], ["str"]]], {"l": [{"i": "2"}, "a"]}), (["enum", ["a", "b"]], "b"),
+                  (["tuplevar", ["float"]], {"l": [{"i": "1"}, {"f": "2.5"}]}), (["list", ["float"]], {"l": [{"i": "4"}]})]
 
 
 def make_case(rng, t, v, modes=None, key=None):
@@ -500,6 +520,81 @@ def gen_sub(rng, modes):
             "leaves": leaves, "doc": doc}
 
 
+# ---- options with nargs / choices / a plain callable type ---------------------------------------------------------------
+P_WORDS = ["a", "b", "abc", "xy", "k1", "Hello", "zed", "c"]
+P_NARGS = [None, None, "?", "*", "+", "+", 1, 2, 3]
+
+
+def gen_plain(rng, modes):
+    """one option declared with (plain callable | type hint | no type) x nargs x choices and one setting for it"""
+    pf = rng.choice(["pos", "pos", "up", "up", "none", ["hint", ["int"]], ["hint", ["float"]], ["hint", ["str"]],
+                     ["hint", ["union", [["int"], ["none"]]]], ["hint", ["list", ["int"]]]])
+    nargs = rng.choice(P_NARGS)
+    islist = nargs in ("*", "+") or isinstance(nargs, int)
+    if not islist:
+        n = 1
+    elif isinstance(nargs, int):
+        n = nargs if rng.random() < 0.85 else rng.choice([k for k in (1, 2, 3, 4) if k != nargs])   # else: a count the pattern refuses
+    elif nargs == "+":
+        n = rng.choice([1, 1, 2, 3]) if rng.random() < 0.9 else 0
+    else:
+        n = rng.choice([0, 1, 2, 3])
+    kind = pf if isinstance(pf, str) else pf[1][0]
+
+    def one():
+        if kind == "pos":
+            r = rng.random()
+            return {"i": str(rng.randint(1, 40))} if r < 0.85 else {"i": str(rng.randint(-5, 0))} if r < 0.93 else rng.choice(P_WORDS)
+        if kind in ("up", "none", "str"):
+            return rng.choice(P_WORDS)
+        if kind == "float":
+            return gen_float_tag(rng) if rng.random() < 0.6 else {"i": str(rng.randint(0, 50))}
+        if kind == "list":
+            return {"l": [{"i": str(rng.randint(0, 9))} for _ in range(rng.randint(0, 3))]}
+        return {"i": str(rng.randint(-20, 40))} if rng.random() < 0.9 else rng.choice(P_WORDS)   # int, Optional[int]
+
+    vals = [one() for _ in range(n)]
+    toks = [top_text(v) for v in vals]
+    if len(toks) != 1:
+        # several values follow the option string only when none of them looks like an option
+        vals = [({"i": str(abs(int(v["i"])))} if isinstance(v, dict) and "i" in v else v) for v in vals]
+        vals = [({"f": v["f"].lstrip("-")} if isinstance(v, dict) and "f" in v else v) for v in vals]
+        toks = [top_text(v) for v in vals]
+    choices = None
+    if rng.random() < 0.45 and kind not in ("float", "list"):
+        if kind in ("pos", "int", "union"):
+            pool = [{"i": str(k)} for k in (1, 2, 3, 5, 8, 13, 21, 34)]
+        elif kind == "up":
+            pool = [w.upper() for w in P_WORDS]
+        else:
+            pool = list(P_WORDS)
+        choices = rng.sample(pool, rng.randint(2, 5))
+        if rng.random() < 0.75:     # mostly settings among the choices
+            for v in vals:
+                c = v.upper() if kind == "up" and isinstance(v, str) else v
+                if c not in choices and isinstance(c, str) == isinstance(choices[0], str):
+                    choices.append(c)
+        if kind in ("int", "union") and rng.random() < 0.8:
+            choices = None          # type hint + non-string choices: the listed finding, kept rare
+    if islist:
+        envtext = "[" + ", ".join(json_text(v) for v in vals) + "]"
+        if len(vals) == 1 and rng.random() < 0.5 and kind != "list":
+            envtext = toks[0]       # a single value may be given bare
+    else:
+        envtext = toks[0]
+    return {"kind": "plain", "pf": pf, "nargs": nargs, "choices": choices, "vals": vals, "toks": toks, "envtext": envtext,
+            "key": rng.choice(["k", "my_key", "g.k", "g.sub.num_k"]), "prefix": rng.choice(PREFIXES), "modes": modes}
+
+
+def known_plain():
+    return {
+        "nargs-count-unchecked": {"kind": "plain", "pf": "pos", "nargs": 2, "choices": None, "vals": [{"i": "5"}], "toks": ["5"],
+                                  "envtext": "[5]", "key": "k", "prefix": "APP", "modes": ["yaml"]},
+        "typed-choices-raw-argv": {"kind": "plain", "pf": ["hint", ["int"]], "nargs": None, "choices": [{"i": "1"}, {"i": "2"}, {"i": "3"}],
+                                   "vals": [{"i": "2"}], "toks": ["2"], "envtext": "2", "key": "k", "prefix": "APP", "modes": ["yaml"]},
+    }
+
+
 def generate(rng, tier):
     ensure_judge()
     cases = list(known_cases(rng).values())
@@ -520,6 +615,15 @@ def generate(rng, tier):
         if any(ch in s for ch in "?{[:") and "${" not in s:
             for t, v in ((["dict", False, ["str"]], {"d": [["k", s]]}), (["str"], s), (["any"], s)):
                 cases.append(make_case(rng, t, v, modes=["yaml", "omegaconf"]))
+    # the empty string (and a blank) at str-typed positions under every key shape, so that every channel variant
+    # (both environment forms, every document form, every prefix) carries it in a good number of cases
+    for key in KEYS:
+        for t, v in ((["str"], ""), (["union", [["str"], ["none"]]], ""), (["str"], " "), (["list", ["str"]], {"l": ["", "a"]})):
+            cases.append(make_case(rng, t, v, key=key, modes=["yaml", rng.choice(MODES[1:])] if tier == "quick" else None))
+    # leaves named like Namespace attributes below one or two branches, with types whose adaptation changes the value
+    for key in CLASH_KEYS:
+        for t, v in CLASH_SETTINGS:
+            cases.append(make_case(rng, t, v, key=key, modes=["yaml", rng.choice(MODES[1:])] if tier == "quick" else None))
     for _ in range(n):
         t = finish_type(rng, gen_type(rng, rng.choice([0, 1, 1, 2, 2, 3])))
         v = gen_value(rng, t, 0.85)
@@ -535,6 +639,9 @@ def generate(rng, tier):
         cases.append(c)
     for _ in range(40 if tier == "quick" else 300):
         cases.append(gen_hist(rng, rng.choice(MODES)))
+    cases += list(known_plain().values())
+    for _ in range(90 if tier == "quick" else 500):
+        cases.append(gen_plain(rng, list(MODES) if tier == "thorough" and rng.random() < 0.3 else ["yaml", rng.choice(MODES[1:])]))
     for _ in range(35 if tier == "quick" else 150):
         cases.append(gen_sub(rng, list(MODES) if tier == "thorough" and rng.random() < 0.3 else ["yaml", rng.choice(MODES[1:])]))
     return cases
@@ -543,6 +650,9 @@ def generate(rng, tier):
 # ---------------------------------------------------------------------------------------------------------------------
 # observation
 # ---------------------------------------------------------------------------------------------------------------------
+_LAST = {}   # the main run's cases and observations, for search(): a broken tie is located without running anything again
+
+
 def observe(cases):
     if not cases:
         return []
@@ -554,6 +664,8 @@ def observe(cases):
             if "error" in o:
                 raise fw.ImplCrash("c05 runner: %s on %r" % (o["error"], cases[i]))
             out[i] = o
+    if len(cases) >= len(_LAST.get("cases", [])):
+        _LAST["cases"], _LAST["obs"] = list(cases), list(out)
     return out
 
 
@@ -711,9 +823,30 @@ def sub_leaves(case):
     return [dict(case["top"], key="top")] + [dict(l, key=case["chosen"] + "." + l["name"]) for l in case["leaves"]]
 
 
+def g_nargs(na):
+    return {None: "NOne", "?": "NOpt", "*": "NStar", "+": "NPlus"}.get(na) if not isinstance(na, int) else "(NNum %d)" % na
+
+
+def term_plain(case, obs):
+    pf = case["pf"]
+    gpf = {"none": "PfNone", "pos": "PfPos", "up": "PfUp"}.get(pf) if isinstance(pf, str) else "(PfHint %s)" % g_ty(pf[1])
+    islist = case["nargs"] in ("*", "+") or isinstance(case["nargs"], int)
+    val = {"l": case["vals"]} if islist else case["vals"][0]
+    obl = ["{| o_yaml := %s; o_oc := false; o_chan := %s; o_loaded := %s; o_nested := false; o_obs := %s |}"
+           % (g_bool(m == "yaml"), ch, "None" if ld is None else "(Some %s)" % g_lres(ld), g_obs(oc))
+           for m, ch, ld, oc, _ in observations(obs)]
+    oracle = [g_pair(g_str(s), g_lres(a)) for s, a in obs["oracle"]]
+    return ("Plain {| p_fun := %s; p_nargs := %s; p_choices := %s; p_toks := %s; p_text := %s; p_val := %s; p_oracle := %s; p_obs := %s |}"
+            % (gpf, g_nargs(case["nargs"]), g_list([g_val(c) for c in case["choices"] or []], "val"),
+               g_list([g_str(t) for t in case["toks"]], "str"), g_str(case["envtext"]), g_val(val),
+               g_list(oracle, "(str * lres)"), g_list(obl, "ob")))
+
+
 def term(case, obs):
     if case.get("kind") == "hist":
         return term_hist(case, obs)
+    if case.get("kind") == "plain":
+        return term_plain(case, obs)
     if case.get("kind") == "sub":
         return "Group %s" % g_list([term_setting(l, o) for l, o in zip(sub_leaves(case), obs["leaves"])], "case")
     return "Setting (%s)" % term_setting(case, obs)
@@ -738,7 +871,7 @@ def term_setting(case, obs):
 # evidence helpers
 # ---------------------------------------------------------------------------------------------------------------------
 def nontrivial_key(case, obs):
-    if case.get("kind") in ("hist", "sub"):
+    if case.get("kind") in ("hist", "sub", "plain"):
         return json.dumps(case, sort_keys=True)
     if len(obs["chan"]) < 8:
         return None
@@ -756,6 +889,12 @@ def vkind(v):
 
 
 def category(case, obs):
+    if case.get("kind") == "plain":
+        kinds = {o[0] for o in obs["chan"].values()}
+        outs = {json.dumps(o) for o in obs["chan"].values()}
+        how = "all accept" if kinds == {"ok"} and len(outs) == 1 else "all reject" if kinds == {"rejected"} else "channels differ"
+        return "nargs/choices: %s nargs=%s%s, %d values / %s" % (case["pf"] if isinstance(case["pf"], str) else "hint " + case["pf"][1][0],
+                                                                 case["nargs"], " choices" if case["choices"] else "", len(case["vals"]), how)
     if case.get("kind") == "sub":
         outs = {json.dumps(o) for l in obs["leaves"] for o in l["chan"].values()}
         same = all(len({json.dumps(o) for o in l["chan"].values()}) == 1 for l in obs["leaves"])
@@ -771,6 +910,17 @@ def category(case, obs):
 
 
 def describe(case, obs):
+    if case.get("kind") == "plain":
+        groups = {}
+        for name, oc in obs["chan"].items():
+            groups.setdefault(json.dumps(oc), []).append(name)
+        return {"option": "add_argument('--%s', type=%s, nargs=%r, choices=%s)" % (
+                    case["key"], {"pos": "pos (int(x) > 0)", "up": "up (str.upper)", "none": "None"}.get(case["pf"]) if isinstance(case["pf"], str)
+                    else case["pf"][1], case["nargs"], None if case["choices"] is None else [untag(c) for c in case["choices"]]),
+                "env_prefix": case["prefix"], "environment variable": obs.get("envvar"),
+                "values following the option string": case["toks"], "text in the environment variable": case["envtext"],
+                "value given to parse_object / written into the documents": [untag(v) for v in case["vals"]],
+                "outcome -> channels (mode/channel[:document])": {k: sorted(v) for k, v in groups.items()}}
     if case.get("kind") == "sub":
         per = {}
         for l in obs["leaves"]:
@@ -801,6 +951,15 @@ def describe(case, obs):
 
 
 def shrink(case):
+    if case.get("kind") == "plain":
+        if len(case["modes"]) > 1:
+            for m in case["modes"]:
+                yield dict(case, modes=[m])
+        if case["key"] != "k":
+            yield dict(case, key="k")
+        if case["prefix"] != "APP":
+            yield dict(case, prefix="APP")
+        return
     if case.get("kind") == "sub":
         if len(case["modes"]) > 1:
             for m in case["modes"]:
@@ -857,7 +1016,15 @@ def shrink(case):
 
 
 META = {
-    "level_text": "Five theorems (coq/Properties/C05.v, closed under the global context). C05_history_independent: after any "
+    "level_text": "Six theorems (coq/Properties/C05.v, closed under the global context). C05_plain_channels_agree (round 6): "
+                  "for options declared with nargs (? * + N), choices and / or a plain callable type — ANY element function, "
+                  "choices, nargs pattern, tokens after the option string, environment text, loader and value: if the pattern "
+                  "admits the number of tokens, the check reads tokens and loaded environment text as the value, argparse's raw-"
+                  "string choice test agrees with the test of the adapted values (type hints), the check is a fixed point and "
+                  "None only where admitted (plain_guard, evaluated per case), then environment, object / document and config-"
+                  "via-environment store what the command line stores or all reject (model of _check_value_key's type and "
+                  "choices blocks, _load_env_vars' list loading, argparse's value collection; Model/C05Plain.v); witnesses "
+                  "C05_nargs_count_refuted, C05_typed_choices_refuted for the two premises. C05_history_independent: after any "
                   "history of parse_args calls (accepted, rejected by an option, rejected while a --cfg value is applied) the "
                   "previous_config ContextVar that parse_string / parse_path read is what it was before, so an earlier call "
                   "cannot make those two channels answer differently from the others (model of previous_config_context with "
@@ -874,7 +1041,9 @@ META = {
                   "regex inclusion), true/false/null to the literals. Three _refuted witnesses (None unchecked, clash-named "
                   "keys unadapted, Literal ==). Correspondence: the real parser through up to 24 channel variants x 4 parser "
                   "modes per setting; model agreement, guard class and agreement of all channels computed inside Coq.",
-    "level_note": "Proved for all inputs: the channel pipeline (any type), str positions, scalar positions, JSON-number tags. "
+    "level_note": "Proved for all inputs: the channel pipeline (any type; since round 6 also any nargs / choices / callable), "
+                  "str positions, scalar positions, JSON-number tags. That plain_guard holds for the two callables of the run "
+                  "is exercised by the correspondence only. "
                   "Only exercised by the correspondence: that the guard holds for container / Union / Literal / Enum / Any types "
                   "(text read as the loaded object, fixed point — the latter is property C10), construction of the number from a "
                   "resolved scalar, document syntax (PyYAML/json/jsonnet/OmegaConf are external: their answer for each document "
@@ -929,8 +1098,27 @@ def checker_witnesses():
         shutil.rmtree(d, ignore_errors=True)
 
 
+def first_bad(cases, obs, tag):
+    bm, bi, bo = fw.judge_cases(sys.modules[__name__], cases, obs, tag=tag)
+    known = fw.load_known_findings(PROP)
+    bad = sorted(set(bi) | {i for i, k in bo if FINDING_CLASSES.get(k) not in known}) or sorted(set(bm))
+    if not bad:
+        return None
+    i = bad[0]
+    return {"case": cases[i], "observed": obs[i], "explain": describe(cases[i], obs[i])}
+
+
 def search(rng, tier, broken):
     ensure_judge()
+    if _LAST.get("cases"):
+        # the run that found the tie broken has the input already: judge its cases once more (no implementation run) and
+        # hand out a spec failure if there is one, else the first case on which model and implementation differ
+        try:
+            hit = first_bad(_LAST["cases"], _LAST["obs"], "y")
+            if hit:
+                return hit
+        except Exception:
+            pass
     texts = []
     try:
         texts = checker_witnesses()
